@@ -7,7 +7,8 @@ import (
 type andFilter []Filter
 
 func And(children ...Filter) ComparableFilter {
-	return andFilter(children)
+	// the filter keeps its own copy: the caller's slice stays the caller's
+	return andFilter(append([]Filter(nil), children...))
 }
 
 func (f andFilter) Accept(obj metav1.Object) bool {
@@ -29,7 +30,8 @@ func (f andFilter) Equals(other Filter) bool {
 type orFilter []Filter
 
 func Or(children ...Filter) ComparableFilter {
-	return orFilter(children)
+	// the filter keeps its own copy: the caller's slice stays the caller's
+	return orFilter(append([]Filter(nil), children...))
 }
 
 func (f orFilter) Accept(obj metav1.Object) bool {
